@@ -30,9 +30,10 @@ and then ran the quick check of the targeted property on a scratch worktree with
 (`bin/seedtest.sh`). "first missed" notes say what was strengthened when a check did not catch a change at
 first; no check was loosened. %d changes, %d caught by the quick tier of the final machinery; %d of them were
 caught by the check of their target property the first time it was run against them, the others after the
-driver or the check was strengthened as the note says (nine rounds of changes; rounds seven and eight 18 and 16 of 20; the ninth round asked for changes that need an exotic
+driver or the check was strengthened as the note says (ten rounds of changes; rounds seven and eight 18 and 16 of 20; the ninth round asked for changes that need an exotic
 input - dimensions of 32768 and more, a million rows, exactly one word of columns above the cutoff, a full block cache, a
-destination larger than the block - and 10 of its 20 were caught at the first run, all 20 after the drivers were extended;
+destination larger than the block - and 10 of its 20 were caught at the first run, all 20 after the drivers were extended; a short tenth round of ordinary mistakes
+(5 changes - the agents dropped seven more candidates because the repository's tests caught them) was caught 5 of 5 at the first run;
 the rate of first-run catches per round is what to expect for a change nobody has looked at yet).
 
 | seeded change | needs, to manifest | caught by (quick tier) | note |
